@@ -271,6 +271,20 @@ class MetadorDataset(MetadorNode):
     # manually assembled from public methods which h5py.Dataset provides
     _self_RO_FORBIDDEN = {"resize", "make_scale", "write_direct", "flush"}
 
+    # attributes of a dataset that do not expose its contents (for skel_only nodes)
+    _self_SKEL_ALLOWED = {
+        "shape",
+        "dtype",
+        "ndim",
+        "size",
+        "nbytes",
+        "len",
+        "maxshape",
+        "chunks",
+        "compression",
+        "compression_opts",
+    }
+
     def __getattr__(self, key):
         if hasattr(type(self), key):
             # only reached if a property of the wrapper raised an AttributeError
@@ -279,10 +293,16 @@ class MetadorDataset(MetadorNode):
             raise UnsupportedOperationError(key)
         if self.acl[NodeAcl.read_only] and key in self._self_RO_FORBIDDEN:
             self._guard_acl(NodeAcl.read_only, key)
-        if self.acl[NodeAcl.skel_only] and key == "get":
+        if self.acl[NodeAcl.skel_only] and key not in self._self_SKEL_ALLOWED:
+            # anything else could be used to read the data (astype, asstr, fields, ...)
             self._guard_acl(NodeAcl.skel_only, key)
 
         return getattr(self.__wrapped__, key)
+
+    # prevent iterating through the data if marked as skel_only
+    def __iter__(self):
+        self._guard_acl(NodeAcl.skel_only, "__iter__")
+        return iter(self.__wrapped__)
 
     # prevent getter of node if marked as skel_only
     def __getitem__(self, *args, **kwargs):
